@@ -26,7 +26,10 @@ REQUIRED = ['hist_length', 'sample_individuals', 'no_record_after_stop', 'record
             'plan_all', 'plan_none', 'plan_natural', 'plan_custom', 'plan_custom_on_record',
             'lag_first_step', 'lag_prev_step', 'lag_prev_record', 'lowmem_one', 'lowmem_eq_last_of_full',
             'lowmem_uids', 'fit_rejects_iff', 'lag_prev_chain', 'lag_order_irrelevant', 'lag_after_out_recode',
-            'lag_running_count']
+            'lag_running_count',
+            # Props/C13_Gen.lean: the loop's bookkeeping as regenerated from MonteCarloGFormula.fit
+            'mc_step_generated', 'mc_filters_generated', 'mc_history_generated', 'no_record_after_stop_generated',
+            'within_tmax_generated', 'times_consecutive_generated', 'plan_all_none_generated', 'lowmem_generated']
 RULE = ('person-period data sets generated here (id, t_in/t_out, binary time-varying L, L2, continuous W, exposure A, '
         'outcome Y, drop-out, lag columns, optional integer weights); nuisance models fitted by zEpid itself; every '
         'cell of plan {all, none, natural, custom rule from the Cond grammar} x covariate models {none, L, L+W '
@@ -716,6 +719,16 @@ def run_case(spec, drv):
             iv = [frac(x) for x in low[outcols].to_numpy(dtype=float).ravel()]
             K(mv == iv, 'low_memory predicted_outcomes row for row')
             K(low['id'].tolist() == [lastid[u] for u in range(n)], 'low_memory ids = full ids')
+            # the loop run by the pieces regenerated from MonteCarloGFormula.fit (Gen/MonteCarlo.lean: mc_init, mc_alive,
+            # mc_step, mc_stacked, mc_iterations), against the implementation they were translated from
+            K(dec_list(rep['glens'], int) == [len(groups.get(u, ())) for u in range(n)],
+              'history lengths: regenerated loop vs full output')
+            K(dec_list(rep['gfulluid'], int) == fu.tolist() and
+              dec_list(rep['gfull'], Fraction) == [frac(x) for x in full[outcols].to_numpy(dtype=float).ravel()],
+              'full predicted_outcomes row for row: regenerated loop (Gen/MonteCarlo.lean)')
+            K(dec_list(rep['glowuid'], int) == low['uid_g_zepid'].tolist() and
+              dec_list(rep['glow'], Fraction) == [frac(x) for x in low[outcols].to_numpy(dtype=float).ravel()],
+              'low_memory predicted_outcomes row for row: regenerated loop and regenerated low_memory filter')
             # frames seen by the models
             seen_impl = []
             ok_shape = True
